@@ -34,6 +34,9 @@ def check(ctx):
     ngr, nget, bad = getters.v1g(ctx, 150 if ctx.tier == "quick" else 1500)
     ctx.oblige("V1g: getter type and path emitted by the real generator == Model/Getter.v getter_of on %d grammars (%d getters)" % (ngr, nget),
                bad == 0 and ngr > 0)
+    nr, nb = getters.raw_getters_same(ctx, 100 if ctx.tier == "quick" else 1000)
+    ctx.oblige("accessors emitted with pest_optimizer = false == accessors emitted with the optimizer on, for %d rules the optimizer left unchanged" % nr,
+               nb == 0 and nr > 0)
     # ---- compiled accessors on parsed trees: T2 (model of the accessor) and T3 (specification)
     ggs = corpus(ctx.tier, ctx.seed)
     by_name = {g.name: g for g in ggs}
